@@ -23,3 +23,4 @@ open Qvnt
 #print axioms C01_code_two
 #print axioms C01_code_h
 #print axioms C01_code_u3
+#print axioms C01_code_matrix
